@@ -3,6 +3,7 @@
 From Coq Require Import ZArith Reals Lia Lra.
 From Coq Require Import Floats.SpecFloat.
 From Flocq Require Import Core.Core IEEE754.BinarySingleNaN.
+From Flocq Require Import Relative.
 From Walleye Require Import Model.Prim Gen.Consts Model.TimeControl.
 Open Scope R_scope.
 
@@ -207,4 +208,127 @@ Theorem slice_within_clock gt c :
 Proof.
   intros clock inc Hc Hi Hm. rewrite calc_core. apply slice_core_bound; [exact Hc|exact Hi|].
   unfold moves_to_go, GAME_LENGTH. destruct (movestogo gt) as [m|]; [|lia]. destruct (Z.ltb_spec 0 m); lia.
+Qed.
+
+(* ---- the proportional clause: with more than the margin left the plan is 80% of (clock - margin) / movestogo,
+   up to three binary64 roundings (relative 2^-51 in all) and the rounding to whole milliseconds *)
+Definition E : R := / 2 * bpow radix2 (-52).
+
+Lemma E_small : 0 < E <= / 8.
+Proof.
+  unfold E. change (bpow radix2 (-52)) with (/ IZR (2 ^ 52)).
+  assert (P : 0 < / IZR (2 ^ 52)) by (apply Rinv_0_lt_compat, IZR_lt; lia).
+  assert (Q : / IZR (2 ^ 52) <= / 4).
+  { apply Rinv_le; [lra|]. change 4 with (IZR 4). apply IZR_le. lia. }
+  lra.
+Qed.
+
+Lemma rnd_up x : bpow radix2 (-1022) <= x -> rnd x <= x * (1 + E).
+Proof.
+  intros H. assert (P : 0 < x) by (eapply Rlt_le_trans; [apply (bpow_gt_0 radix2 (-1022))|exact H]).
+  pose proof (relative_error_N_FLT radix2 (3 - emax - prec) prec Hprec (fun z => negb (Z.even z)) x) as R.
+  rewrite Rabs_pos_eq in R by lra. specialize (R H).
+  change (round radix2 (FLT_exp (3 - emax - prec) prec) (Znearest (fun z => negb (Z.even z))) x) with (rnd x) in R.
+  change (/ 2 * bpow radix2 (- prec + 1)) with E in R.
+  pose proof (Rle_abs (rnd x - x)). lra.
+Qed.
+
+Lemma rt_half (x : f64) : is_finite x = true -> 0 <= B2R x -> IZR (round_to_u128 x) <= B2R x + / 2.
+Proof.
+  intros F H. destruct x as [s|s| |s m e Hb]; try discriminate F; try (cbn [round_to_u128 B2R]; lra).
+  destruct s; [cbn [round_to_u128]; lra|].
+  cbn [B2R]. unfold F2R. cbn [Fnum Fexp cond_Zopp round_to_u128].
+  destruct (Z.leb_spec 0 e) as [He|He].
+  - apply Rle_trans with (IZR (Z.pos m * 2 ^ e)); [apply IZR_le, Z.le_min_l|]. rewrite mult_IZR. change (IZR (2 ^ e)) with (IZR (radix2 ^ e)).
+    rewrite (IZR_Zpower radix2 e He). lra.
+  - set (d := (2 ^ (- e))%Z). assert (Hd : (0 < d)%Z) by (unfold d; apply Z.pow_pos_nonneg; lia).
+    pose proof (Z.div_mod (Z.pos m) d ltac:(lia)) as DM. pose proof (Z.mod_pos_bound (Z.pos m) d Hd) as MB.
+    set (q := (Z.pos m / d)%Z) in *. set (r := (Z.pos m mod d)%Z) in *.
+    set (v := if (d <=? 2 * r)%Z then (q + 1)%Z else q).
+    assert (Hv : (2 * d * v <= 2 * Z.pos m + d)%Z) by (unfold v; destruct (Z.leb_spec d (2 * r)); nia).
+    apply Rle_trans with (IZR v); [apply IZR_le, Z.le_min_l|].
+    assert (Eb : bpow radix2 e = / IZR d).
+    { unfold d. change (IZR (2 ^ - e)) with (IZR (radix2 ^ - e)). rewrite (IZR_Zpower radix2 (- e)) by lia. rewrite bpow_opp, Rinv_inv. reflexivity. }
+    rewrite Eb. assert (PD : 0 < IZR d) by (apply IZR_lt; exact Hd).
+    apply IZR_le in Hv. rewrite plus_IZR, !mult_IZR in Hv.
+    apply Rmult_le_reg_r with (2 * IZR d); [lra|].
+    replace ((IZR (Z.pos m) * / IZR d + / 2) * (2 * IZR d)) with (2 * IZR (Z.pos m) + IZR d) by (field; lra).
+    lra.
+Qed.
+
+Lemma usage_le : B2R MAX_USAGE <= 8 / 10 * (1 + E).
+Proof.
+  rewrite (proj1 max_usage_val). unfold E. change (bpow radix2 (-53)) with (/ IZR (2 ^ 53)). change (bpow radix2 (-52)) with (/ IZR (2 ^ 52)).
+  assert (P53 : IZR (2 ^ 53) = 2 * IZR (2 ^ 52)) by (rewrite <- mult_IZR; f_equal).
+  assert (P : 0 < IZR (2 ^ 52)) by (apply IZR_lt; lia). rewrite P53.
+  apply Rmult_le_reg_r with (2 * IZR (2 ^ 52)); [lra|].
+  replace (IZR 7205759403792794 * / (2 * IZR (2 ^ 52)) * (2 * IZR (2 ^ 52))) with (IZR 7205759403792794) by (field; lra).
+  replace (8 / 10 * (1 + / 2 * / IZR (2 ^ 52)) * (2 * IZR (2 ^ 52))) with (8 / 10 * (2 * IZR (2 ^ 52) + 1)) by (field; lra).
+  assert (Q : IZR 7205759403792794 * 10 <= 8 * (2 * IZR (2 ^ 52) + 1)).
+  { change 10 with (IZR 10). change 8 with (IZR 8). change 2 with (IZR 2). change 1 with (IZR 1). rewrite <- !mult_IZR, <- plus_IZR, <- mult_IZR. apply IZR_le. vm_compute. discriminate. }
+  lra.
+Qed.
+
+Theorem slice_core_proportional clock inc mtg :
+  (Z.abs clock < 2 ^ 53)%Z -> (Z.abs inc < 2 ^ 53)%Z -> (1 <= mtg < 2 ^ 53)%Z -> (100 < clock)%Z ->
+  IZR (slice_core clock inc mtg) <= 8 / 10 * IZR (clock - 100) / IZR mtg * (1 + 4 * E) + / 2.
+Proof.
+  intros Hc Hi Hm G. unfold slice_core.
+  destruct (f64_of_Z_ok clock Hc) as [Ec Fc]. destruct (f64_of_Z_ok mtg ltac:(lia)) as [Em Fm].
+  destruct safeguard_val as [Es Fs]. destruct zero_val as [Ez Fz]. pose proof max_usage_range as [U0 U1]. pose proof E_small as [E0 E8].
+  pose proof (Bminus_correct prec emax _ _ mode_NE (f64_of_Z clock) SAFEGUARD Fc Fs) as CB. change (round_mode mode_NE) with ZnearestE in CB.
+  rewrite Ec, Es in CB. rewrite no_overflow in CB.
+  2:{ replace (IZR clock - 100) with (IZR (clock - 100)) by (rewrite minus_IZR; reflexivity). rewrite <- abs_IZR.
+      apply Rle_trans with (IZR (2 ^ 54)); [apply IZR_le; lia|]. change (bpow radix2 60) with (IZR (2 ^ 60)). apply IZR_le. lia. }
+  destruct CB as (Eb & Fb & _). fold (fsub (f64_of_Z clock) SAFEGUARD) in Eb, Fb.
+  set (base := fsub (f64_of_Z clock) SAFEGUARD) in *.
+  unfold fle. rewrite (Bleb_correct prec emax base zero Fb Fz), Eb, Ez.
+  assert (Hn : (Z.abs (clock - 100) < 2 ^ 53)%Z) by lia.
+  assert (En : rnd (IZR clock - 100) = IZR (clock - 100)) by (rewrite <- minus_IZR; now apply rnd_int).
+  rewrite En in Eb |- *.
+  assert (Pn : 1 <= IZR (clock - 100)) by (apply IZR_le; lia).
+  rewrite Rle_bool_false by lra.
+  destruct (mul_usage base (clock - 100) Fb Eb Hn) as [E1 F1]. set (t1 := fmul base MAX_USAGE) in *.
+  set (n := IZR (clock - 100)) in *. set (u := B2R MAX_USAGE) in *.
+  assert (Pm : 1 <= IZR mtg) by (apply IZR_le; lia).
+  assert (Mlt : IZR mtg <= bpow radix2 53) by (change (bpow radix2 53) with (IZR (2 ^ 53)); apply IZR_le; lia).
+  assert (Uge : / 2 <= u) by (unfold u; rewrite (proj1 max_usage_val); change (bpow radix2 (-53)) with (/ IZR (2 ^ 53));
+    apply Rmult_le_reg_r with (IZR (2 ^ 53)); [apply IZR_lt; lia|]; rewrite Rmult_assoc, Rinv_l, Rmult_1_r by (apply not_0_IZR; lia);
+    replace (/ 2 * IZR (2 ^ 53)) with (IZR (2 ^ 52)) by (replace (IZR (2 ^ 53)) with (2 * IZR (2 ^ 52)) by (rewrite <- mult_IZR; f_equal); field); apply IZR_le; lia).
+  assert (NU : / 2 <= n * u) by nra.
+  assert (Half : rnd (/ 2) = / 2).
+  { apply round_generic; [apply valid_rnd_N|]. change (/ 2) with (bpow radix2 (-1)). apply generic_format_bpow. vm_compute. discriminate. }
+  assert (T1l : / 2 <= B2R t1) by (rewrite E1, <- Half; now apply rnd_le).
+  assert (Small : bpow radix2 (-1022) <= / 2) by (change (/ 2) with (bpow radix2 (-1)); apply bpow_le; lia).
+  assert (T1u : B2R t1 <= n * u * (1 + E)) by (rewrite E1; apply rnd_up; lra).
+  pose proof (Bdiv_correct prec emax _ _ mode_NE t1 (f64_of_Z mtg) ltac:(rewrite Em; lra)) as CD. change (round_mode mode_NE) with ZnearestE in CD.
+  rewrite Em in CD.
+  assert (Q0 : 0 < B2R t1 / IZR mtg) by (apply Rmult_lt_0_compat; [lra|apply Rinv_0_lt_compat; lra]).
+  assert (Q : B2R t1 / IZR mtg <= B2R t1).
+  { apply Rmult_le_reg_r with (IZR mtg); [lra|]. unfold Rdiv. rewrite Rmult_assoc, Rinv_l, Rmult_1_r by lra. nra. }
+  assert (T1n : B2R t1 <= n) by (rewrite E1; unfold n; rewrite <- (rnd_int (clock - 100) Hn) at 2; apply rnd_le; fold n; nra).
+  rewrite no_overflow in CD.
+  2:{ rewrite Rabs_pos_eq by lra. apply Rle_trans with n; [lra|]. unfold n. rewrite <- (Rabs_pos_eq (IZR (clock - 100))) by (fold n; lra). now apply abs_int_le. }
+  destruct CD as (E2 & F2 & _). fold (fdiv t1 (f64_of_Z mtg)) in E2, F2. rewrite F1 in F2.
+  set (t2 := fdiv t1 (f64_of_Z mtg)) in *.
+  assert (QL : bpow radix2 (-1022) <= B2R t1 / IZR mtg).
+  { apply Rle_trans with (/ 2 * / bpow radix2 53).
+    - rewrite <- bpow_opp. change (/ 2) with (bpow radix2 (-1)). rewrite <- bpow_plus. apply bpow_le. lia.
+    - unfold Rdiv. apply Rmult_le_compat; [lra|apply Rlt_le, Rinv_0_lt_compat, bpow_gt_0|exact T1l|apply Rinv_le; lra]. }
+  assert (T2u : B2R t2 <= B2R t1 / IZR mtg * (1 + E)) by (rewrite E2; now apply rnd_up).
+  assert (T2l : 0 <= B2R t2) by (rewrite E2, <- rnd_0; apply rnd_le; lra).
+  pose proof (rt_half t2 F2 T2l) as RH.
+  pose proof usage_le as UL. fold u in UL.
+  (* assemble *)
+  assert (IM : / IZR mtg > 0) by (apply Rinv_0_lt_compat; lra).
+  assert (A1 : B2R t1 / IZR mtg <= n * u * (1 + E) / IZR mtg) by (unfold Rdiv; apply Rmult_le_compat_r; lra).
+  assert (A2 : n * u * (1 + E) / IZR mtg <= n * (8 / 10 * (1 + E)) * (1 + E) / IZR mtg).
+  { unfold Rdiv. apply Rmult_le_compat_r; [lra|]. apply Rmult_le_compat_r; [lra|]. apply Rmult_le_compat_l; lra. }
+  assert (A3 : B2R t2 <= n * (8 / 10 * (1 + E)) * (1 + E) / IZR mtg * (1 + E)).
+  { eapply Rle_trans; [exact T2u|]. apply Rmult_le_compat_r; lra. }
+  assert (Cube : (1 + E) * (1 + E) * (1 + E) <= 1 + 4 * E) by nra.
+  assert (B : n * (8 / 10 * (1 + E)) * (1 + E) / IZR mtg * (1 + E) = 8 / 10 * n / IZR mtg * ((1 + E) * (1 + E) * (1 + E))) by (field; lra).
+  assert (NM : 0 <= 8 / 10 * n / IZR mtg) by (unfold Rdiv; apply Rmult_le_pos; [lra|lra]).
+  rewrite B in A3. assert (A4 : 8 / 10 * n / IZR mtg * ((1 + E) * (1 + E) * (1 + E)) <= 8 / 10 * n / IZR mtg * (1 + 4 * E)) by (apply Rmult_le_compat_l; lra).
+  lra.
 Qed.
